@@ -444,6 +444,7 @@ def rule_digit_extraction(fx, rep):
             for npts, nsc in (((1, 1),) if w > 3 else ((1, 1), (2, 2), (2, 1), (1, 2))):
                 ncomp = min(npts, nsc)
                 events = []
+                buckets_len = [None]
 
                 def tr(I, fr, t, c, pth):
                     nm = c.get('name')
@@ -452,7 +453,17 @@ def rule_digit_extraction(fx, rep):
                     if (res_.startswith('std::vec::from_elem') or c['def'] == 'std::vec::from_elem') and isinstance(fr.operand(args[0]), Lin):
                         # the bucket vector (elements are points); other scratch vectors are ordinary values
                         fr.storev(t['dest'], 'BUCKETS')
+                        nb = fr.operand(args[1])
+                        buckets_len[0] = nb.v if isinstance(nb, Int) else None
                         return True
+                    if nm == 'len' and len(args) == 1:
+                        v = fr.deref_operand(args[0])
+                        for _ in range(3):
+                            if isinstance(v, exp.Ref):
+                                v = fr._project(fr.store.get(v.root, TOP), v.proj)
+                        if isinstance(v, str) and v == 'BUCKETS' and buckets_len[0] is not None:
+                            fr.storev(t['dest'], Int(buckets_len[0]))
+                            return True
                     if nm in ('index', 'index_mut') and 'std::vec::Vec' in res_:
                         v = fr.deref_operand(args[0])
                         if isinstance(v, str) and v == 'BUCKETS':
@@ -530,6 +541,18 @@ def rule_digit_extraction(fx, rep):
                 I.switch_hook = switch_hook
 
                 def binop_hook(op, a_, b_):
+                    # a digit against a constant: decided when the digit's known-zero high bits bound it
+                    if op in ('Lt', 'Le', 'Gt', 'Ge') and isinstance(a_, BV) and isinstance(b_, Int) and b_.v > 0:
+                        hi = sum((0 if x == 0 else 1) << i_ for i_, x in enumerate(a_.e))      # largest possible value
+                        lo = sum((1 if x == 1 else 0) << i_ for i_, x in enumerate(a_.e))      # smallest possible value
+                        if op == 'Lt' and hi < b_.v or op == 'Le' and hi <= b_.v:
+                            return Int(1, 1)
+                        if op == 'Lt' and lo >= b_.v or op == 'Le' and lo > b_.v:
+                            return Int(0, 1)
+                        if op == 'Gt' and lo > b_.v or op == 'Ge' and lo >= b_.v:
+                            return Int(1, 1)
+                        if op == 'Gt' and hi <= b_.v or op == 'Ge' and hi < b_.v:
+                            return Int(0, 1)
                     if op in ('Gt', 'Ne') and isinstance(a_, BV) and isinstance(b_, Int) and b_.v == 0:
                         return ('bool', ('digit-nonzero', a_))
                     if op in ('Lt', 'Ne') and isinstance(b_, BV) and isinstance(a_, Int) and a_.v == 0:
